@@ -19,6 +19,10 @@ import vlib
 from vlib import log
 
 PROPERTIES = ["C07"]
+# behaviour switches of ImplStep: what the model says the code does at HEAD (conformance only)
+SWITCHES = json.load(open(os.path.join(vlib.ROOT, "spec", "MutualClose.switches.json")))
+if os.environ.get("VERIF_C07_SATURATE"):          # private mutation self-tests on a copy that carries the fix
+    SWITCHES["feerateSaturates"] = os.environ["VERIF_C07_SATURATE"] == "true"
 RULES = ["commitments", "shape", "htlcs", "funds", "fee_low", "fee_high", "value", "dest", "upfront"]
 
 # tier -> (leg A constants, case matrix magnitudes, judge processes)
@@ -31,9 +35,9 @@ TIERS = {
 def leg_a(tier, d):
     t = TIERS[tier]
     cfg = vlib.write_cfg(os.path.join(d, "MC_MutualClose.cfg"),
-                         "SPECIFICATION Spec\nCONSTANTS\n  KS = %d\n  KR = %d\n  Mags = %s\nVIEW View\n"
+                         "SPECIFICATION Spec\nCONSTANTS\n  KS = %d\n  KR = %d\n  Mags = %s\n  Saturate = %s\nVIEW View\n"
                          "INVARIANTS C07\nPROPERTIES ClosedAfterSign\nCHECK_DEADLOCK FALSE\n" % (
-                             t["KS"], t["KR"], t["mags_a"]))
+                             t["KS"], t["KR"], t["mags_a"], "TRUE" if SWITCHES["feerateSaturates"] else "FALSE"))
     r = vlib.tlc("MC_MutualClose", cfg, workers=t["workers"], extra=["-continue", "-coverage", "1"],
                  timeout=1500, name="mc-mutualclose")
     hyps = {}
@@ -82,8 +86,9 @@ def judge(lines, d, nproc, tag="impl"):
         with open(lf, "w") as f:
             f.writelines(chunks[k])
         rep = os.path.join(d, "%s-report-%d.json" % (tag, k))
-        r = vlib.tlc("ImplMutualClose", cfg, env={"MCL_LOG": lf, "MCL_REPORT": rep}, workers=2, timeout=3000,
-                     name="%s-mutualclose-%d" % (tag, k), heap="4g")
+        r = vlib.tlc("ImplMutualClose", cfg, env={"MCL_LOG": lf, "MCL_REPORT": rep,
+                                                  "MCL_SATURATE": "true" if SWITCHES["feerateSaturates"] else "false"},
+                     workers=2, timeout=3000, extra=["-continue"], name="%s-mutualclose-%d" % (tag, k), heap="4g")
         r["report"] = json.load(open(rep))
         return r
 
@@ -188,7 +193,10 @@ def run(pid, tier):
     for v in j["violations"]:
         groups.setdefault(vkey(v), []).append(v)
     states_by_sid = {s["sid"]: s for s in cases["states"]}
+    good = ["0", "typ", "W7n", "C1", "some", "some"]
     for key, vs in sorted(groups.items()):
+        # the example with the fewest deviations from the good request
+        vs.sort(key=lambda v: (sum(1 for x, y in zip(by_i[v["i"]]["abs"], good) if x != y), v["i"]))
         e = by_i[vs[0]["i"]]
         violations.append({"key": key,
                            "what": "%s on the real code (%d cases, e.g. %s)" % (vs[0]["v"], len(vs), describe(e)),
@@ -219,6 +227,7 @@ def run(pid, tier):
         "exhaustive": True,
         "spec_divergences": j["divergences"][:40],
         "model_only_counterexamples": sorted(k for k in hyps if k not in groups),
+        "switches": SWITCHES,
         "explanation": "TLC (a) model-checks the implementation-shaped ImplStep against the reference predicate over "
                        "the abstract matrix, (b) prints the concrete case matrix, (c) re-judges every case the harness "
                        "executed on the real crates from the logged concrete values (one TLC state per case, "
